@@ -74,6 +74,7 @@ type Obligation struct {
 	Answers map[string]string
 	SMTPath string
 	Bounded bool
+	Replay  *ReplayResult
 }
 
 type pendingEdge struct {
